@@ -1,6 +1,465 @@
 import Driver.Util
-/-! Model driver stub (owned by the Wmpt work package). -/
+import Verif.Model.WmptProof
+/-! Model driver for the weighted-trie suites c09–c13 (op language: /verif/go/harness/wmptrun.go, suite_c10.go) and
+    c15wmpt (suite_c15wmpt.go). -/
 namespace Driver.Wmpt
-def step (s : Unit) (_w : List String) : Unit × String := (s, "unimplemented")
-def main : IO Unit := Driver.loop () step
+open Verif.Wmpt Driver
+
+abbrev Hh : Bytes → Bytes := sha3
+
+structure Checkpoint where
+  root : Bytes
+  weight : Nat
+  node : WN
+
+structure St where
+  t : WT := {}
+  croot : Bytes := emptyHash Hh
+  cweight : Nat := 0
+  cp : Option Checkpoint := none
+  slots : List (Nat × Bytes) := []
+  exportB : Option Bytes := none
+  part : Option WT := none
+
+def errStr : Err → String
+  | .notFound => "notfound"
+  | .range => "range"
+  | .invalidKey => "invalidkey"
+  | .kvNotFound => "kvnotfound"
+  | .noDb => "nodb"
+  | .other => "err"
+  | .panic => "panic"
+
+def ltBytes : Bytes → Bytes → Bool
+  | [], [] => false
+  | [], _ :: _ => true
+  | _ :: _, [] => false
+  | a :: p, b :: q => if a < b then true else if b < a then false else ltBytes p q
+
+def insSorted (k : Bytes × Bytes) : List (Bytes × Bytes) → List (Bytes × Bytes)
+  | [] => [k]
+  | x :: r => if ltBytes k.1 x.1 then k :: x :: r else if k.1 = x.1 then k :: r else x :: insSorted k r
+
+def sortKV (l : List (Bytes × Bytes)) : List (Bytes × Bytes) := l.foldl (fun acc k => insSorted k acc) []
+
+def be64n (n : Nat) : Bytes := be64 n
+
+/-- `fmtEntry` of the harness: one atomic storage operation, puts and deletes as sorted sets -/
+def fmtEntry (ops : List StoreOp) : String :=
+  -- net effect per key, last operation wins
+  let (puts, dels) := ops.foldl (fun (acc : List (Bytes × Bytes) × List Bytes) o =>
+    match o with
+    | .put k v => ((k, v) :: acc.1.filter (fun e => e.1 != k), acc.2.filter (· != k))
+    | .del k => (acc.1.filter (fun e => e.1 != k), k :: acc.2.filter (· != k))) ([], [])
+  let ps := sortKV puts
+  let dig := ps.flatMap (fun (k, v) => k ++ be64n v.length ++ v)
+  let short := ps.map (fun (k, _) => ((hex k).take 12).toString)
+  let ds := (sortKV (dels.map (fun k => (k, ([] : Bytes))))).map (fun (k, _) => hex k)
+  s!"p={ps.length}:{",".intercalate short}:{((hex (Hh dig)).take 16).toString} d={ds.length}:{",".intercalate ds}"
+
+def fmtEntries (es : List (List StoreOp)) : String :=
+  if es.isEmpty then "none" else " | ".intercalate (es.map fmtEntry)
+
+def parseKey (s : String) : Option (List Nib) := do
+  let b ← unhex s
+  pure (b.flatMap (fun x =>
+    [(⟨(x.toNat / 16) % 16, Nat.mod_lt _ (by decide)⟩ : Nib), (⟨x.toNat % 16, Nat.mod_lt _ (by decide)⟩ : Nib)]))
+
+def resStr {α} (r : Res α) (f : α → String) : String :=
+  match r with
+  | .ok a => f a
+  | .err e => errStr e
+
+def hexOrDash (b : Bytes) : String := if b.isEmpty then "-" else hex b
+
+/-! ### proof tampering (mirror of `applyTamper` in suite_c10.go) -/
+
+def decodePairs (proof : Bytes) : Option (List PBase) := do
+  let ps ← Cbor.decTrie proof
+  ps.mapM (fun p => match p with
+    | some b => Cbor.decBase b
+    | none => none)
+
+def encodePairs (ns : List PBase) : Bytes := Cbor.encTrie (ns.map Cbor.encBase)
+
+def childW (c : Bytes) : Nat := be64Dec (c.drop 32)
+
+def setChildW (c : Bytes) (w : Nat) : Bytes := c.take 32 ++ be64 (w % 2^64) ++ c.drop 40
+
+def listSet {α} (l : List α) (i : Nat) (a : α) : List α := l.set i a
+
+def flipBit (b : Bytes) (k bit : Nat) : Bytes :=
+  b.set (k % b.length) ((b.getD (k % b.length) 0) ^^^ (UInt8.ofNat (1 <<< bit)))
+
+def applyTamper (slots : List (Nat × Bytes)) (ns : List PBase) (cls : String) (a : List String) : Option (List PBase) :=
+  let arg := fun (k : Nat) => (a.getD k "0").toNat!
+  if cls = "none" then some ns
+  else if ns.isEmpty then none
+  else if cls = "trunc" then some (ns.take (arg 0 % (ns.length + 1)))
+  else
+    let p := arg 0 % ns.length
+    let n := ns.getD p {}
+    let kids : List Bytes := match n.branch with | some b => b.children | none => []
+    let idx := List.range kids.length
+    let pres := idx.filter (fun k => (kids.getD k []).length ≥ 40)
+    let abs := idx.filter (fun k => (kids.getD k []).length = 0)
+    let setKids := fun (ks : List Bytes) => match n.branch with
+      | some b => ns.set p { n with branch := some { b with children := ks } }
+      | none => ns
+    match cls with
+    | "reweight" | "addempty" =>
+      let d := arg 3
+      if n.branch.isNone || pres.isEmpty then none
+      else
+        let j0 := pres.getD (arg 2 % pres.length) 0
+        if cls = "reweight" then
+          if pres.length < 2 then none
+          else
+            let i := pres.getD (arg 1 % pres.length) 0
+            let j := if i = j0 then pres.getD ((arg 2 + 1) % pres.length) 0 else j0
+            if childW (kids.getD j []) < d then none
+            else
+              let ks := kids.set i (setChildW (kids.getD i []) (childW (kids.getD i []) + d))
+              let ks := ks.set j (setChildW (ks.getD j []) (childW (ks.getD j []) - d))
+              some (setKids ks)
+        else
+          if abs.isEmpty then none
+          else
+            let i := abs.getD (arg 1 % abs.length) 0
+            let j := j0
+            if childW (kids.getD j []) < d then none
+            else
+              let ks := kids.set i (emptyHash Hh ++ be64 d)
+              let ks := ks.set j (setChildW (ks.getD j []) (childW (ks.getD j []) - d))
+              some (setKids ks)
+    | "shortw" =>
+      match n.short with
+      | some s => if s.value.length ≠ 40 then none else some (ns.set p { n with short := some { s with value := setChildW s.value (arg 1) } })
+      | none => none
+    | "valw" =>
+      match n.value with
+      | some v => some (ns.set p { n with value := some { v with weight := arg 1 } })
+      | none => none
+    | "swapsib" =>
+      if n.branch.isNone || pres.isEmpty then none
+      else
+        let i := pres.getD (arg 1 % pres.length) 0
+        let j := arg 2 % 16
+        if j ≥ kids.length || i = j then none
+        else some (setKids ((kids.set i (kids.getD j [])).set j (kids.getD i [])))
+    | "subst" =>
+      match slots.lookup (arg 1) with
+      | none => none
+      | some proof =>
+        match decodePairs proof with
+        | none => none
+        | some os => if os.isEmpty then none else some (ns.set p (os.getD (arg 2 % os.length) {}))
+    | "drop" => some (ns.take p ++ ns.drop (p + 1))
+    | "dup" => some (ns.take (p + 1) ++ ns.drop p)
+    | "flip" =>
+      let fld := a.getD 1 ""
+      let k := arg 2
+      let bit := arg 3 % 8
+      match n.branch, n.value, n.short with
+      | some b, _, _ =>
+        if fld = "h" then (if b.hash.isEmpty then none else some (ns.set p { n with branch := some { b with hash := flipBit b.hash k bit } }))
+        else if fld.startsWith "c" then
+          if pres.isEmpty then none
+          else
+            let ci := pres.getD ((fld.drop 1).toString.toNat! % pres.length) 0
+            some (setKids (kids.set ci (flipBit (kids.getD ci []) k bit)))
+        else none
+      | none, some v, _ =>
+        if fld = "h" then (if v.hash.isEmpty then none else some (ns.set p { n with value := some { v with hash := flipBit v.hash k bit } }))
+        else if fld = "v" then (if v.value.isEmpty then none else some (ns.set p { n with value := some { v with value := flipBit v.value k bit } }))
+        else if fld = "w" then some (ns.set p { n with value := some { v with weight := v.weight ^^^ (1 <<< ((k % 8) * 8 + bit)) } })
+        else none
+      | none, none, some s =>
+        if fld = "h" then (if s.hash.isEmpty then none else some (ns.set p { n with short := some { s with hash := flipBit s.hash k bit } }))
+        else if fld = "v" then (if s.value.isEmpty then none else some (ns.set p { n with short := some { s with value := flipBit s.value k bit } }))
+        else if fld = "k" then (if s.key.isEmpty then none else some (ns.set p { n with short := some { s with key := flipBit s.key k bit } }))
+        else none
+      | _, _, _ => none
+    | "kind" =>
+      match n.branch, n.short with
+      | some b, _ =>
+        let total := (kids.filter (fun c => c.length ≥ 40)).foldl (fun acc c => acc + childW c) 0
+        let body := kids.flatMap (fun c => if c.length ≥ 40 then c.take 32 else emptyHash Hh)
+          ++ (List.replicate (16 - kids.length) (emptyHash Hh)).flatten
+        some ((ns.set p { value := some ⟨body, b.hash, total % 2^64⟩ }).take (p + 1))
+      | none, some s =>
+        if s.key.length ≥ 8 ∧ s.value.length = 40 then
+          some ((ns.set p { value := some ⟨s.key.drop 8 ++ s.value.take 32, s.hash, be64Dec s.key⟩ }).take (p + 1))
+        else none
+      | _, _ => none
+    | _ => none
+
+/-! ### c15wmpt: descriptions of decoded CBOR (see suite_c15wmpt.go) -/
+
+def descBytes (b : Bytes) : String := if b.isEmpty then "-" else hex b
+
+def descBase (p : PBase) : String :=
+  let parts : List String :=
+    (match p.branch with | some b => ["B:" ++ descBytes b.hash ++ ":" ++ ",".intercalate (b.children.map descBytes)] | none => [])
+    ++ (match p.value with | some v => [s!"V:{descBytes v.value}:{descBytes v.hash}:{v.weight}"] | none => [])
+    ++ (match p.short with | some v => [s!"S:{descBytes v.key}:{descBytes v.hash}:{descBytes v.value}"] | none => [])
+    ++ (if p.nilNode then ["N"] else [])
+    ++ (match p.hashNode with | some v => [s!"H:{descBytes v.hash}:{v.weight}"] | none => [])
+  if parts.isEmpty then "0" else ";".intercalate parts
+
+def parseBase (d : String) : Option PBase :=
+  if d = "0" then some {} else
+  (d.splitOn ";").foldlM (fun (p : PBase) part =>
+    match part.splitOn ":" with
+    | ["B", h, cs] => do
+      let h ← unhex h
+      let cs ← if cs = "" then some [] else (cs.splitOn ",").mapM unhex
+      pure { p with branch := some ⟨h, cs⟩ }
+    | ["V", v, h, w] => do pure { p with value := some ⟨← unhex v, ← unhex h, ← w.toNat?⟩ }
+    | ["S", k, h, v] => do pure { p with short := some ⟨← unhex k, ← unhex h, ← unhex v⟩ }
+    | ["N"] => some { p with nilNode := true }
+    | ["H", h, w] => do pure { p with hashNode := some ⟨← unhex h, ← w.toNat?⟩ }
+    | _ => none) {}
+
+def parsePairs (d : String) : Option (List PairD) :=
+  if d = "Z" then some [] else
+  (d.splitOn "/").mapM (fun e =>
+    if e = "n" then some PairD.nilPair
+    else if e = "E" then some PairD.bad
+    else (parseBase e).map PairD.ok)
+
+/-- the model's own CBOR decoder against the library's verdict: whenever it accepts, it must agree -/
+def crossNode (bytes : Bytes) (desc : String) : String :=
+  match Cbor.decBase bytes, (if desc = "E" then none else parseBase desc) with
+  | some _, none => " !cbor-model-accepts-what-the-library-rejects"
+  | some p', some p => if p' = p then "" else " !cbor-model-decodes-differently"
+  | none, some p => if Cbor.encBase p = bytes then " !cbor-model-rejects-a-canonical-encoding" else ""
+  | none, none => ""
+
+def crossTrie (bytes : Bytes) (desc : String) : String :=
+  match Cbor.decTrie bytes, (if desc = "X" then none else parsePairs desc) with
+  | some _, none => " !cbor-model-accepts-what-the-library-rejects"
+  | some ps, some ds =>
+    if ps.length ≠ ds.length then " !cbor-model-decodes-differently"
+    else if (ps.zip ds).all (fun (p, d) =>
+      match PairD.ofBytes p, d with
+      | .nilPair, .nilPair => true
+      | .ok a, .ok b => a = b
+      | .ok _, _ => false
+      | .bad, .nilPair => false
+      | .bad, _ => true
+      | .nilPair, _ => false) then "" else " !cbor-model-decodes-differently"
+  | none, _ => ""
+
+def c15Step (w : List String) : Option String :=
+  match w with
+  | ["dnode", hx, desc] =>
+    match unhex hx with
+    | none => some "bad-op"
+    | some bytes =>
+      let out :=
+        if desc = "E" then "err"
+        else match parseBase desc with
+          | none => "bad-desc"
+          | some p =>
+            match deserializeNode p with
+            | .err .panic => "panic"
+            | .err _ => "err"
+            | .ok n => "ok " ++ descBase (serializeP Hh n).2
+      some (out ++ crossNode bytes desc)
+  | ["vproof", b, hx, desc] =>
+    match unhex hx with
+    | none => some "bad-op"
+    | some bytes =>
+      let out :=
+        if desc = "X" ∨ bytes.isEmpty then "err"
+        else match parsePairs desc with
+          | none => "bad-desc"
+          | some ps =>
+            match verifyPairs Hh ps b.toNat! with
+            | .err .panic => "panic"
+            | .err _ => "err"
+            | .ok (h, v) => s!"ok {hex h} {hexOrDash v}"
+      some (out ++ crossTrie bytes desc)
+  | ["dtrie", hx, desc] =>
+    match unhex hx with
+    | none => some "bad-op"
+    | some bytes =>
+      let out :=
+        if desc = "X" then "err"
+        else match parsePairs desc with
+          | none => "bad-desc"
+          | some ps =>
+            match importPairs Hh ps with
+            | .err .panic => "panic"
+            | .err _ => "err"
+            | .ok r =>
+              let root : WN := match r with | some n => n | none => .empty
+              let (t, h) := rootHash Hh { root := root, hasDb := false }
+              s!"ok {hex h} {t.weight} {descBase (serializeP Hh t.root).2}"
+      some (out ++ crossTrie bytes desc)
+  | _ => none
+
+/-! ### the state machine -/
+
+def applyTo (t : WT) (ops : List StoreOp) : WT := { t with store := t.store.apply ops }
+
+def ownersLine (t : WT) : WT × String := Id.run do
+  let total := t.weight
+  let mut t := t
+  let mut runs : Array String := #[]
+  let mut prev := ""
+  let mut cnt := 0
+  for b in [1:total+1] do
+    let (t', r) := blockProof Hh t b
+    t := t'
+    match r with
+    | .err e => return (t, errStr e ++ s!"@{b}")
+    | .ok (key, _) =>
+      let k8 := ((hex key).take 8).toString
+      if k8 != prev && cnt > 0 then
+        runs := runs.push s!"{prev}*{cnt}"
+        cnt := 0
+      prev := k8
+      cnt := cnt + 1
+  if cnt > 0 then runs := runs.push s!"{prev}*{cnt}"
+  return (t, "ok " ++ ",".intercalate runs.toList)
+
+def rootStr (t : WT) : WT × String :=
+  let (t', h) := rootHash Hh t
+  (t', hex h)
+
+def mirrorOp (t : WT) (w : List String) : WT × String :=
+  match w with
+  | ["mupd", k, v, wt] =>
+    match parseKey k, unhex v with
+    | some k, some v => let (t', r) := update Hh t k v wt.toNat!; (t', resStr r (fun _ => "ok"))
+    | _, _ => (t, "bad-op")
+  | ["mupdel", k] =>
+    match parseKey k with
+    | some k => let (t', r) := update Hh t k [] 0; (t', resStr r (fun _ => "ok"))
+    | none => (t, "bad-op")
+  | ["mdel", k] =>
+    match parseKey k with
+    | some k => let (t', r) := deleteKey Hh t k; (t', resStr r (fun c => s!"ok:{c}"))
+    | none => (t, "bad-op")
+  | _ => (t, "bad-op")
+
+def stateStr (t : WT) : WT × String :=
+  let (t', r) := rootStr t
+  (t', s!"{r} {t'.weight}")
+
+def step (s : St) (w : List String) : St × String :=
+  match c15Step w with
+  | some out => (s, out)
+  | none =>
+  match w with
+  | ["upd", k, v, wt] =>
+    match parseKey k, unhex v with
+    | some k, some v =>
+      let (t', r) := update Hh s.t k v wt.toNat!
+      ({ s with t := t' }, resStr r (fun _ => "ok"))
+    | _, _ => (s, "bad-op")
+  | ["updel", k] =>
+    match parseKey k with
+    | some k => let (t', r) := update Hh s.t k [] 0; ({ s with t := t' }, resStr r (fun _ => "ok"))
+    | none => (s, "bad-op")
+  | ["del", k] =>
+    match parseKey k with
+    | some k => let (t', r) := deleteKey Hh s.t k; ({ s with t := t' }, resStr r (fun c => s!"ok {c}"))
+    | none => (s, "bad-op")
+  | ["commit", lvl] =>
+    let (t1, ops) := commit Hh s.t lvl.toInt!
+    let t2 := applyTo t1 ops
+    let (t3, root) := rootHash Hh t2
+    ({ s with t := t3, croot := root, cweight := t3.weight }, s!"ok r={hex root} w={t3.weight} {fmtEntry ops}")
+  | ["gc"] =>
+    let (t', ops) := deleteNodes s.t
+    ({ s with t := t' }, "ok " ++ fmtEntries (if ops.isEmpty then [] else [ops]))
+  | ["reload"] =>
+    let root : WN := if s.cweight = 0 then .empty else .hashRef s.croot s.cweight
+    ({ s with t := { root := root, store := s.t.store }, cp := none }, "ok")
+  | ["root"] => let (t', r) := rootStr s.t; ({ s with t := t' }, "ok " ++ r)
+  | ["weight"] => (s, s!"ok {s.t.weight}")
+  | ["owner", b] =>
+    let (t', r) := blockProof Hh s.t b.toNat!
+    ({ s with t := t' }, resStr r (fun (key, _) => "ok " ++ hex key))
+  | ["owners"] => let (t', o) := ownersLine s.t; ({ s with t := t' }, o)
+  | ["proof", b, slot] =>
+    let b := b.toNat!
+    let (t', r) := blockProof Hh s.t b
+    match r with
+    | .err e => ({ s with t := t' }, errStr e)
+    | .ok (key, proof) =>
+      let pre := s!"ok {hex key} n={proof.length} d={((hex (Hh proof)).take 16).toString}"
+      match verifyBlockProof Hh proof b with
+      | .err e => ({ s with t := t' }, pre ++ " verify-" ++ errStr e)
+      | .ok (h, v) =>
+        ({ s with t := t', slots := (slot.toNat!, proof) :: s.slots.filter (fun e => e.1 != slot.toNat!) },
+         pre ++ s!" r={hex h} v={hex v}")
+  | "tamper" :: slot :: b :: cls :: args =>
+    match s.slots.lookup slot.toNat! with
+    | none => (s, "skip")
+    | some proof =>
+      match decodePairs proof with
+      | none => (s, "skip")
+      | some ns =>
+        match applyTamper s.slots ns cls args with
+        | none => (s, "skip")
+        | some ns' =>
+          match verifyBlockProof Hh (encodePairs ns') b.toNat! with
+          | .err .panic => (s, "panic")
+          | .err _ => (s, "err")
+          | .ok (h, v) => (s, s!"ok {hex h} {hexOrDash v}")
+  | ["saveroot", lvl] =>
+    let lvl := lvl.toInt!
+    let t' := saveRoot Hh s.t
+    let node : WN :=
+      if lvl = -2 then (if s.cweight > 0 then .hashRef s.croot s.cweight else .nil)
+      else copyRoot Hh lvl 0 (normRoot s.t.root)
+    ({ s with t := t', cp := some ⟨s.croot, s.cweight, node⟩ }, "ok")
+  | [kind] =>
+    if kind = "rollback" ∨ kind = "rollbacktrie" then
+      match s.cp with
+      | none => (s, "skip")
+      | some cp =>
+        let (t1, ops) := if kind = "rollback" then rollback s.t else rollbackTrie Hh s.t cp.node
+        let (t2, root) := rootHash Hh t1
+        ({ s with t := t2, croot := cp.root, cweight := cp.weight },
+         s!"ok r={hex root} w={t2.weight} {fmtEntries (if ops.isEmpty then [] else [ops])}")
+    else if kind = "import" then
+      match s.exportB with
+      | none => (s, "skip")
+      | some data =>
+        let (p, r) := importTrie Hh { hasDb := false } data
+        match r with
+        | .err _ => ({ s with part := some p }, "err")
+        | .ok _ =>
+          let (p', st) := rootStr p
+          ({ s with part := some p' }, s!"ok r={st} w={p'.weight}")
+    else (s, "bad-op")
+  | ["getpath", ks] =>
+    let keys : Option (List (List Nib)) := if ks = "-" then some [] else (ks.splitOn ",").mapM parseKey
+    match keys with
+    | none => (s, "bad-op")
+    | some keys =>
+      let (t', r) := getPath Hh s.t keys
+      match r with
+      | .err e => ({ s with t := t', exportB := none }, errStr e)
+      | .ok data => ({ s with t := t', exportB := some data }, s!"ok n={data.length} d={((hex (Hh data)).take 16).toString}")
+  | op :: _ =>
+    if op = "mupd" ∨ op = "mdel" ∨ op = "mupdel" then
+      match s.part with
+      | none => (s, "skip")
+      | some p =>
+        let (t1, rs) := mirrorOp s.t w
+        let (p1, rp) := mirrorOp p w
+        let (t2, ss) := stateStr t1
+        let (p2, sp) := stateStr p1
+        ({ s with t := t2, part := some p2 }, s!"{rs} {rp} {ss} {sp}")
+    else (s, "bad-op")
+  | _ => (s, "bad-op")
+
+def main : IO Unit := loop ({} : St) step
+
 end Driver.Wmpt
